@@ -1,11 +1,11 @@
-\* verification flow: node 1 verifies attestation 1 of node 2 (2 bit-pairs), honesty checks, duplicates, losses, time-outs
-SPECIFICATION Spec
+\* replayed graph: verification with time passing, time-outs of all cache classes, late datagrams
+SPECIFICATION SpecL
 CONSTANTS
  Nodes = {1, 2} Adv = {} Requesters = {} Verifiers = {1}
  Values <- Vals1 NChunks = 2 Window = 10 Pre <- PreOwn2
- MaxReq = 0 MaxVer = 1 MaxHon = 1 MaxDup = 1 MaxDrop = 1 MaxAdv = 0 MaxTimeouts = 1 MaxTicks = 0
+ MaxReq = 0 MaxVer = 1 MaxHon = 0 MaxDup = 0 MaxDrop = 1 MaxAdv = 0 MaxTimeouts = 2 MaxTicks = 1
  AdvKinds = {"junk", "data", "resp", "chal"} AdvResps = {0, 1, 2, 3}
- TickSteps = {}
+ TickSteps = {115}
  OnceOnly = TRUE CheckPeer = TRUE CheckHash = TRUE AskConsent = TRUE
 INVARIANT StoredIntact
 INVARIANT ChunkIsolation
@@ -13,4 +13,3 @@ INVARIANT VerifyOnce
 INVARIANT ResultConsistent
 INVARIANT ConsentGiven
 INVARIANT CachesSane
-PROPERTY DbAppendOnly
